@@ -4,6 +4,7 @@ import (
 	"encoding/json"
 	"errors"
 	"fmt"
+	"os"
 	"sort"
 	"strings"
 	"testing/synctest"
@@ -42,6 +43,7 @@ type Step struct {
 	Force  bool              `json:"force,omitempty"`
 	Raw    string            `json:"raw,omitempty"`
 	ID     *int              `json:"id,omitempty"`
+	Solo   bool              `json:"solo,omitempty"`
 }
 
 // Do performs one step, waits for the system to block, and logs what it
@@ -51,9 +53,13 @@ func (w *World) Do(st Step) bool {
 	sj, _ := json.Marshal(st)
 	rec := Rec{"e": "step", "i": w.stepNo, "op": st.Op, "s": string(sj), "skipped": false}
 	w.add(rec)
+	if debugTrace {
+		fmt.Fprintln(os.Stderr, "STEP", w.stepNo, string(sj))
+	}
 	ok := w.do(st)
 	synctest.Wait()
 	w.drainFrames()
+
 	if !ok {
 		w.mu.Lock()
 		rec["skipped"] = true
@@ -250,6 +256,11 @@ func (w *World) send(st Step) bool {
 	if c == nil || c.closed || c.eof {
 		return false
 	}
+	// a solo get is only sent when nothing else is outstanding on the
+	// connection, and nothing else is sent until it is answered
+	if c.soloOut || (st.Solo && len(c.out) > 0) {
+		return false
+	}
 	id := c.nextID
 	if st.ID != nil {
 		id = *st.ID
@@ -265,6 +276,11 @@ func (w *World) send(st Step) bool {
 	if st.Count != nil {
 		count = *st.Count
 		f["params"] = map[string]any{"count": count}
+	}
+	c.out[id] = true
+	if st.Solo {
+		c.soloOut = true
+		c.soloID = id
 	}
 	n, q := w.splitRID(st.C, st.RID)
 	w.add(Rec{"e": "creq", "c": st.C, "id": id, "m": st.M, "rid": st.RID, "n": n, "q": q, "key": key(n, q), "action": st.Action, "count": count})
@@ -376,4 +392,4 @@ func (s Step) String() string {
 	return strings.TrimSpace(string(b))
 }
 
-var _ = fmt.Sprint
+var debugTrace = os.Getenv("VERIF_DEBUG") != ""
